@@ -89,7 +89,7 @@ def run(ctx):
     vlib.run(args, timeout=3000, stderr=None)
     rd = lambda n: open(os.path.join(ctx.work, n)).read().split("\n")[:-1]
     cases, impl, info = rd("cases.txt"), rd("impl.txt"), rd("info.txt")
-    stats = dict(l.split(" ") for l in rd("stats.txt"))
+    stats = dict(l.rsplit(" ", 1) for l in rd("stats.txt"))
     p = vlib.run([exe], input="\n".join(cases) + "\n", timeout=3000, stderr=None)
     model = p.stdout.split("\n")[:-1]
     if not (len(cases) == len(impl) == len(model) == len(info)):
